@@ -27,6 +27,7 @@ class Scheduler(Device, OutMixIn):
         self.element_id = uuid.uuid4()
         self.queue_byte_size: DefaultDict[FlowId, int] = dd(lambda: 0)
         self.queue_count: DefaultDict[FlowId, int] = dd(lambda: 0)
+        self.class_count: DefaultDict[ClassId, int] = dd(lambda: 0)
 
         self.current_packet = None
         self.packets_received = 0
@@ -70,6 +71,7 @@ class Scheduler(Device, OutMixIn):
         flow_id = packet.flow_id
         self.queue_count[flow_id] -= 1
         self.queue_byte_size[flow_id] -= packet.size
+        self.class_count[self.flow2class(flow_id)] -= 1
         if self.out:
             self.dprint(
                 f"sent out packet {packet.packet_id} from flow {packet.flow_id} "
@@ -85,6 +87,7 @@ class Scheduler(Device, OutMixIn):
         self.packets_received += 1
         self.queue_count[flow_id] += 1
         self.queue_byte_size[flow_id] += packet.size
+        self.class_count[self.flow2class(flow_id)] += 1
 
     def run(self, env: Environment) -> ProcessGenerator:
         raise NotImplementedError("run(env) is not implemented in Scheduler class")
@@ -129,4 +132,4 @@ class MultiQueueScheduler(Scheduler):
             self.packets_available.put(True)
         self.add_packet_to_queue(packet)
         self.dprint(f"received packet {packet.packet_id} from flow {flow_id}".format())
-        self.stores[flow_id].put(packet)
+        self.stores[self.flow2class(flow_id)].put(packet)
